@@ -22,7 +22,7 @@ func init() { core.Register(core.Check{ID: "C11m", Run: run, Replay: replay}) }
 
 // ---- harness processors (each counts its executions) ----
 
-var execs [8]int
+var execs [16]int
 
 type Un struct {
 	ID int
@@ -60,6 +60,22 @@ func (d Arr) Process() (string, error) {
 	return fmt.Sprintf("a%d([%s],%s,%s)", d.ID, strings.Join(parts, ","), nodes.TryGetOutputValue(d.Extra, "-"), nodes.TryGetOutputValue(d.Other, "-")), nil
 }
 
+// Sum consumes a slice-typed parameter (its JSON decoding is not atomic: a message can fail after
+// the first element).
+type Sum struct {
+	ID int
+	In nodes.NodeOutput[[]int]
+}
+
+func (d Sum) Process() (string, error) {
+	execs[d.ID]++
+	t := 0
+	for _, v := range nodes.TryGetOutputValue(d.In, nil) {
+		t += v
+	}
+	return fmt.Sprintf("s%d(%d)", d.ID, t), nil
+}
+
 // ---- world: implementation + reference ----
 //
 //	p (parameter.Value)   q (nodes.Value)
@@ -67,17 +83,24 @@ func (d Arr) Process() (string, error) {
 //	B = Bin(A, q)                     diamond A → {B, C} → D
 //	C = Un(A)                         shared sub-graph A feeding B and C
 //	D = Arr([B, C], Extra=q, Other=p) fan-in: two scalar inputs and an array input
+//	E = Sum(r)                        r: slice-typed parameter.Value[[]int]
+//	F = Un(<nothing>)                 a source node with no wired input (can be wired later)
 const (
 	P = iota
 	Q
+	R
 	A
 	B
 	C
 	D
+	E
+	F
 	N
 )
 
-var nodeNames = [N]string{"p", "q", "A", "B", "C", "D"}
+var nodeNames = [N]string{"p", "q", "r", "A", "B", "C", "D", "E", "F"}
+
+func isParam(n int) bool { return n == P || n == Q || n == R }
 
 type src struct {
 	port string
@@ -87,12 +110,14 @@ type src struct {
 type world struct {
 	p    *parameter.Value[string]
 	q    *nodes.ValueNode[string]
+	r    *parameter.Value[[]int]
 	a, c *nodes.Struct[string, Un]
+	f    *nodes.Struct[string, Un]
 	b    *nodes.Struct[string, Bin]
 	d    *nodes.Struct[string, Arr]
+	e    *nodes.Struct[string, Sum]
 	// reference model
-	pval    [2]string
-	pver    [2]int
+	pver    [3]int
 	wiring  [N][]src // ordered inputs of struct nodes (array entries in order)
 	wver    [N]int   // bumped on every re-wiring of the node
 	lastSig [N]string
@@ -112,6 +137,10 @@ func (w *world) out(n int) nodes.NodeOutput[string] {
 		return w.c.Out()
 	case D:
 		return w.d.Out()
+	case E:
+		return w.e.Out()
+	case F:
+		return w.f.Out()
 	}
 	panic("no such node")
 }
@@ -126,18 +155,26 @@ func (w *world) node(n int) nodes.Node {
 		return w.c
 	case D:
 		return w.d
+	case E:
+		return w.e
+	case F:
+		return w.f
 	}
 	panic("no such struct node")
 }
 
-var structNodes = []int{A, B, C, D}
+var structNodes = []int{A, B, C, D, E, F}
 
 // build constructs the graph. seed selects a (deliberately non-initial) starting state.
 func build(seed string) *world {
 	w := &world{}
 	w.p = &parameter.Value[string]{Name: "p", DefaultValue: "p0"}
 	w.q = nodes.Value("q0")
-	w.pval = [2]string{"p0", "q0"}
+	w.r = &parameter.Value[[]int]{Name: "r", DefaultValue: []int{1, 2}}
+	w.e = &nodes.Struct[string, Sum]{Data: Sum{ID: E, In: w.r.Out()}}
+	w.f = &nodes.Struct[string, Un]{Data: Un{ID: F}}
+	w.wiring[E] = []src{{"In", R}}
+	w.wiring[F] = nil
 	w.a = &nodes.Struct[string, Un]{Data: Un{ID: A, In: w.p.Out()}}
 	w.b = &nodes.Struct[string, Bin]{Data: Bin{ID: B, X: w.a.Out(), Y: w.q.Out()}}
 	w.c = &nodes.Struct[string, Un]{Data: Un{ID: C, In: w.a.Out()}}
@@ -165,10 +202,22 @@ func (w *world) eval(n int) string {
 		return "-"
 	}
 	switch n {
-	case P, Q:
-		return w.pval[n]
-	case A, C:
+	case P:
+		return w.p.Value() // the parameter's *current* value as the parameter itself reports it
+	case Q:
+		return w.q.Value()
+	case A, C, F:
 		return fmt.Sprintf("u%d(%s)", n, get("In"))
+	case E:
+		t := 0
+		for _, s := range w.wiring[E] {
+			if s.port == "In" {
+				for _, v := range w.r.Value() {
+					t += v
+				}
+			}
+		}
+		return fmt.Sprintf("s%d(%d)", n, t)
 	case B:
 		return fmt.Sprintf("b%d(%s,%s)", n, get("X"), get("Y"))
 	case D:
@@ -185,7 +234,7 @@ func (w *world) eval(n int) string {
 
 // sig: everything node n transitively depends on — parameter update counts and wiring versions.
 func (w *world) sig(n int) string {
-	if n == P || n == Q {
+	if isParam(n) {
 		return fmt.Sprint("p", w.pver[n])
 	}
 	var sb strings.Builder
@@ -215,6 +264,8 @@ func (o Op) String() string {
 	switch o.Kind {
 	case "set":
 		return fmt.Sprintf("set(%s,%s)", nodeNames[o.A], o.S)
+	case "setbad":
+		return fmt.Sprintf("rejected-update(%s,%s)", nodeNames[o.A], o.S)
 	case "read":
 		return fmt.Sprintf("read(%s)", nodeNames[o.A])
 	case "wire":
@@ -229,7 +280,7 @@ func (o Op) String() string {
 
 func alphabet() []Op {
 	var o []Op
-	for _, n := range []int{A, B, C, D} {
+	for _, n := range []int{A, B, C, D, E, F} {
 		o = append(o, Op{Kind: "read", A: n})
 	}
 	for _, p := range []int{P, Q} {
@@ -243,6 +294,10 @@ func alphabet() []Op {
 		Op{Kind: "wire", A: C, S: "In", B: P}, Op{Kind: "wire", A: C, S: "In", B: A},
 		Op{Kind: "wire", A: D, S: "Extra", B: P}, Op{Kind: "wire", A: D, S: "Other", B: A},
 		Op{Kind: "arradd", A: D, B: A}, Op{Kind: "arradd", A: D, B: Q}, Op{Kind: "arrdel", A: D},
+		Op{Kind: "set", A: R, S: "[3,4]"}, Op{Kind: "set", A: R, S: "[5,6,7]"},
+		// a syntactically valid message that is rejected with a type error after its first element
+		Op{Kind: "setbad", A: R, S: `[10,"x",30]`},
+		Op{Kind: "wire", A: D, S: "Other", B: E}, Op{Kind: "wire", A: C, S: "In", B: F}, Op{Kind: "wire", A: F, S: "In", B: P},
 	)
 	return o
 }
@@ -277,7 +332,7 @@ func apply(w *world, o Op, step int) (enabled bool, probs []problem) {
 	for _, n := range structNodes {
 		verBefore[n] = w.node(n).Version()
 	}
-	execs = [8]int{}
+	execs = [16]int{}
 	var exp [N]int
 	var dirtyBefore [N]bool
 	for _, n := range structNodes {
@@ -285,14 +340,28 @@ func apply(w *world, o Op, step int) (enabled bool, probs []problem) {
 	}
 	switch o.Kind {
 	case "set":
-		val := fmt.Sprintf("%c%s", "pq"[o.A], o.S)
-		if o.A == P {
-			w.p.ApplyMessage([]byte(fmt.Sprintf("%q", val)))
-		} else {
-			w.q.Set(val)
+		switch o.A {
+		case P:
+			w.p.ApplyMessage([]byte(fmt.Sprintf("%q", "p"+o.S)))
+		case Q:
+			w.q.Set("q" + o.S)
+		case R:
+			if _, err := w.r.ApplyMessage([]byte(o.S)); err != nil {
+				panic(err)
+			}
 		}
-		w.pval[o.A] = val
 		w.pver[o.A]++
+	case "setbad":
+		// the update is rejected (returns an error). Whether the parameter keeps its old value or not
+		// is the parameter's business; what the property demands is that reads afterwards still agree
+		// with a from-scratch evaluation of whatever the parameter now reports.
+		before := fmt.Sprint(w.r.Value())
+		if _, err := w.r.ApplyMessage([]byte(o.S)); err == nil {
+			return false, nil // not rejected: not the operation this entry stands for
+		}
+		if fmt.Sprint(w.r.Value()) != before {
+			w.pver[R]++ // the value did change: for the reference the parameter changed
+		}
 	case "read":
 		got := w.out(o.A).Value()
 		want := w.eval(o.A)
@@ -303,10 +372,15 @@ func apply(w *world, o Op, step int) (enabled bool, probs []problem) {
 		w.expected(o.A, &exp)
 	case "wire":
 		w.node(o.A).SetInput(o.S, nodes.Output{NodeOutput: w.out(o.B)})
+		found := false
 		for i := range w.wiring[o.A] {
 			if w.wiring[o.A][i].port == o.S {
 				w.wiring[o.A][i].from = o.B
+				found = true
 			}
+		}
+		if !found { // a port that was not connected so far
+			w.wiring[o.A] = append(w.wiring[o.A], src{o.S, o.B})
 		}
 		w.wver[o.A]++
 	case "arradd":
@@ -368,7 +442,7 @@ func apply(w *world, o Op, step int) (enabled bool, probs []problem) {
 
 // expected: nodes that may execute on read(n): the dirty nodes reachable from n through dirty nodes.
 func (w *world) expected(n int, exp *[N]int) {
-	if n == P || n == Q || !w.dirty(n) {
+	if isParam(n) || !w.dirty(n) {
 		return
 	}
 	exp[n]++
